@@ -9,7 +9,8 @@ EXPLANATION = (
     'are marked -1, masked out, and never used to index the pattern list; (A10) no return-arity mismatch or '
     'None dereference on the decode slice; (A9f/A7) time-out / memory errors of the complete analysis fall '
     'back to the fast encoder and every encoder type is registered; (A4) existence analysis and instance '
-    'construction follow the same edge types.  Not decided: that the returned node set is an admissible '
+    'construction follow the same edge types; (A1/A2) no decode corrupts the persistent tables and caches later '
+    'decodes rely on; (A5n) the neighbourhood search of the fast encoder reaches every option.  Not decided: that the returned node set is an admissible '
     'closure (quantifies over graph values).')
 
 
@@ -22,6 +23,13 @@ def check(ctx):
     decode.fallback_to_fast(ctx)
     decode.crash_shapes(ctx, fns)
     decode.closest_combination_distance(ctx)
+    # the tables the decode relies on (scenario index sets, caches) are not corrupted by earlier decodes
+    from ..rules import persist
+    ps = persist.Persist(ctx, [ctx.fn(f'{GP}.get_graph')], fns)
+    ps.check_writes()
+    # fast encoder: the neighbourhood search reaches every option value
+    from .c14 import neighbourhood
+    neighbourhood(ctx)
     edges.check_walks(ctx, categories={'derivation', 'incompat-scan', 'default'})
     ctx.floor('A5', 2, 'result tuples of the two analyzers')
     ctx.floor('A17', 3, 'pattern look-ups by existence-map index in GraphProcessor')
